@@ -256,19 +256,22 @@ theorem range_sameUnitary {q : Quirks} {n : Nat} {gs : List AGate} {s : Section}
   · intro st hst
     rw [hok.2 st hst, hg.gates_eq, runClassical_filter_cl q _ hg.inside]
 
-/-- **invariant of the splice loop.**  `l` is the list of sections still to process, in the
-order of the loop (decreasing positions); everything below `B` is still the original prefix -/
+/-- **invariant of the splice loop**, for any relation `E` between gate lists that is transitive
+and a congruence for `P ++ · ++ T`.  `l` is the list of sections still to process, in the order
+of the loop (decreasing positions); everything below `B` is still the original prefix. -/
 theorem spliceLoop_inv (q : Quirks) (n : Nat) (resyn : Section → Except String SecResult)
-    (gs : List AGate) (hwf : ∀ g ∈ gs, g.wires.Nodup) :
+    (gs : List AGate) (E : List AGate → List AGate → Prop)
+    (Etrans : ∀ {a b c}, E a b → E b c → E a c)
+    (Econgr : ∀ {a b}, E a b → ∀ P T, E (P ++ a ++ T) (P ++ b ++ T)) :
     ∀ (l : List Section) (acc out : List AGate) (B : Nat) (tail : List AGate),
       l.Pairwise (fun x y => y.stop < x.start) →
       (∀ s ∈ l, s.stop ≤ B) → B ≤ gs.length →
       acc = gs.take B ++ tail →
       (∀ s ∈ l, RangeGood q gs s) →
-      (∀ s ∈ l, ∀ r, resyn s = .ok r → accept q n s r = true → SectionOK n s.gates r.gates) →
-      SameUnitary n acc gs → acc.length ≤ gs.length →
+      (∀ s ∈ l, ∀ r, resyn s = .ok r → accept q n s r = true → E r.gates (rangeOf gs s.start s.stop)) →
+      E acc gs → acc.length ≤ gs.length →
       spliceLoop q n resyn l acc = .ok out →
-      SameUnitary n out gs ∧ out.length ≤ gs.length := by
+      E out gs ∧ out.length ≤ gs.length := by
   intro l
   induction l with
   | nil =>
@@ -282,7 +285,7 @@ theorem spliceLoop_inv (q : Quirks) (n : Nat) (resyn : Section → Except String
     have hgs := hgood s (List.mem_cons_self)
     have hrest_good : ∀ s' ∈ rest, RangeGood q gs s' := fun s' hs' => hgood s' (List.mem_cons_of_mem _ hs')
     have hrest_ok : ∀ s' ∈ rest, ∀ r, resyn s' = .ok r → accept q n s' r = true →
-        SectionOK n s'.gates r.gates := fun s' hs' => hok s' (List.mem_cons_of_mem _ hs')
+        E r.gates (rangeOf gs s'.start s'.stop) := fun s' hs' => hok s' (List.mem_cons_of_mem _ hs')
     simp only [spliceLoop] at h
     cases hr : resyn s with
     | error e => rw [hr] at h; cases h
@@ -314,10 +317,10 @@ theorem spliceLoop_inv (q : Quirks) (n : Nat) (resyn : Section → Except String
           rw [e] at this
           exact this
         have hsec := hok s (List.mem_cons_self) r hr ha
-        have hequiv : SameUnitary n (splice acc s.start s.stop r.gates) acc := by
+        have hequiv : E (splice acc s.start s.stop r.gates) acc := by
           rw [hsp]
           conv => rhs; rw [hacc']
-          exact (range_sameUnitary hwf hgs hsec).congr _ _
+          exact Econgr hsec _ _
         have hnl : r.gates.length ≤ (rangeOf gs s.start s.stop).length := by
           have h1 : r.gates.length ≤ s.gates.length := by
             simp only [accept, Bool.and_eq_true, decide_eq_true_eq] at ha
@@ -336,7 +339,7 @@ theorem spliceLoop_inv (q : Quirks) (n : Nat) (resyn : Section → Except String
           (r.gates ++ ((gs.take B).drop s.stop ++ tail)) hpw'.2
           (fun s' hs' => Nat.le_of_lt (hpw'.1 s' hs')) (by have := hgs.hi; omega)
           (by rw [hsp]; simp only [List.append_assoc]) hrest_good hrest_ok
-          (hequiv.trans heq) hlen' h
+          (Etrans hequiv heq) hlen' h
       · rw [if_neg ha] at h
         exact ih acc out B tail hpw'.2 (fun s' hs' => hB s' (List.mem_cons_of_mem _ hs')) hBlen hacc
           hrest_good hrest_ok heq hlen h
@@ -352,5 +355,166 @@ theorem decompile_ranges {q : Quirks} {K : Kernel} {n : Nat} {gs : List AGate} {
     exact (rangeGood_of_secGood (hd.secGood s (List.mem_reverse.mp hs))).hi
   · intro s hs
     exact rangeGood_of_secGood (hd.secGood s (List.mem_reverse.mp hs))
+
+/-! ## wires of the result -/
+
+theorem mem_wiresOf {gs : List AGate} {i : Nat} : i ∈ wiresOf gs ↔ ∃ g ∈ gs, i ∈ g.wires := by
+  unfold wiresOf; simp [List.mem_flatMap]
+
+theorem accept_wires {q : Quirks} {n : Nat} {s : Section} {r : SecResult} (h : accept q n s r = true) :
+    ∀ g ∈ r.gates, ∀ i ∈ g.wires, i ∈ wiresOf s.gates := by
+  simp only [accept, Bool.and_eq_true, List.all_eq_true, List.contains_iff_mem] at h
+  intro g hg i hi
+  exact h.1.2 i (mem_wiresOf.mpr ⟨g, hg, hi⟩)
+
+theorem accept_length {q : Quirks} {n : Nat} {s : Section} {r : SecResult} (h : accept q n s r = true) :
+    r.gates.length ≤ s.gates.length := by
+  simp only [accept, Bool.and_eq_true, decide_eq_true_eq] at h
+  exact h.1.1
+
+theorem accept_stable {n : Nat} {s : Section} {r : SecResult} (h : accept Quirks.none n s r = true) :
+    nameStable n r.qmap = true := by
+  simp only [accept, Bool.and_eq_true, Quirks.none, Bool.false_or] at h
+  exact h.2
+
+/-- every gate of the result touches only qubits the input touches -/
+theorem spliceLoop_wires (q : Quirks) (n : Nat) (resyn : Section → Except String SecResult)
+    (gs : List AGate) :
+    ∀ (l : List Section) (acc out : List AGate),
+      (∀ s ∈ l, ∀ g ∈ s.gates, g ∈ gs) →
+      (∀ g ∈ acc, ∀ i ∈ g.wires, i ∈ wiresOf gs) →
+      spliceLoop q n resyn l acc = .ok out →
+      ∀ g ∈ out, ∀ i ∈ g.wires, i ∈ wiresOf gs := by
+  intro l
+  induction l with
+  | nil =>
+    intro acc out _ hacc h
+    simp only [spliceLoop] at h
+    cases h
+    exact hacc
+  | cons s rest ih =>
+    intro acc out hsec hacc h
+    have hrest : ∀ s' ∈ rest, ∀ g ∈ s'.gates, g ∈ gs := fun s' hs' => hsec s' (List.mem_cons_of_mem _ hs')
+    simp only [spliceLoop] at h
+    cases hr : resyn s with
+    | error e => rw [hr] at h; cases h
+    | ok r =>
+      rw [hr] at h
+      simp only at h
+      by_cases ha : accept q n s r = true
+      · rw [if_pos ha] at h
+        refine ih _ out hrest ?_ h
+        intro g hg i hi
+        unfold splice at hg
+        rcases List.mem_append.mp hg with hg | hg
+        · rcases List.mem_append.mp hg with hg | hg
+          · exact hacc g (List.mem_of_mem_take hg) i hi
+          · obtain ⟨g', hg', hi'⟩ := mem_wiresOf.mp (accept_wires ha g hg i hi)
+            exact mem_wiresOf.mpr ⟨g', hsec s (List.mem_cons_self) g' hg', hi'⟩
+        · exact hacc g (List.mem_of_mem_drop hg) i hi
+      · rw [if_neg ha] at h
+        exact ih acc out hrest hacc h
+
+theorem rangeGood_gates_mem {q : Quirks} {gs : List AGate} {s : Section} (h : RangeGood q gs s) :
+    ∀ g ∈ s.gates, g ∈ gs := by
+  intro g hg
+  rw [h.gates_eq] at hg
+  have := (List.mem_filter.mp hg).1
+  unfold rangeOf at this
+  exact List.mem_of_mem_drop (List.mem_of_mem_take this)
+
+/-! ## `custom_simplify_logic2` keeps the meaning -/
+
+theorem rawKernel4_sound : rawKernel4.Sound where
+  not_eval := by intros; simp [rawKernel4, BExp.eval]
+  and_eval := by intros; simp [rawKernel4, BExp.eval]
+  or_eval := by intros; simp [rawKernel4, BExp.eval]
+  xor_eval := by intros; simp [rawKernel4, BExp.eval]
+
+section
+variable {simp : BExp → BExp} {K : Kernel4}
+
+mutual
+theorem customSimplify_eval (hK : K.Sound) (hs : ∀ ρ e, (simp e).eval ρ = e.eval ρ) (ρ : Env) :
+    ∀ e, (customSimplify simp K e).eval ρ = e.eval ρ
+  | .xor args => by
+      unfold customSimplify
+      split
+      · next l he => rw [← he]; exact hs ρ _
+      · next e he => rw [← he]; exact hs ρ _
+      · next s he => rw [← he]; exact hs ρ _
+      · rw [hK.xor_eval, (customSimplifyList_eval hK hs ρ args).2.2]; simp [BExp.eval]
+  | .and args => by
+      unfold customSimplify
+      rw [hK.and_eval, (customSimplifyList_eval hK hs ρ args).1]; simp [BExp.eval]
+  | .or args => by
+      unfold customSimplify
+      rw [hK.or_eval, (customSimplifyList_eval hK hs ρ args).2.1]; simp [BExp.eval]
+  | .not a => by
+      unfold customSimplify
+      rw [hK.not_eval, customSimplify_eval hK hs ρ a]; simp [BExp.eval]
+  | .tt => by unfold customSimplify; exact hs ρ _
+  | .ff => by unfold customSimplify; exact hs ρ _
+  | .sym s => by unfold customSimplify; exact hs ρ _
+  | .ite c t e => by unfold customSimplify; exact hs ρ _
+  | .imp a b => by unfold customSimplify; exact hs ρ _
+theorem customSimplifyList_eval (hK : K.Sound) (hs : ∀ ρ e, (simp e).eval ρ = e.eval ρ) (ρ : Env) :
+    ∀ l, evalAnd ρ (customSimplifyList simp K l) = evalAnd ρ l ∧
+         evalOr ρ (customSimplifyList simp K l) = evalOr ρ l ∧
+         evalXor ρ (customSimplifyList simp K l) = evalXor ρ l
+  | [] => by unfold customSimplifyList; exact ⟨rfl, rfl, rfl⟩
+  | e :: es => by
+      unfold customSimplifyList
+      have h1 := customSimplify_eval hK hs ρ e
+      have h2 := customSimplifyList_eval hK hs ρ es
+      simp only [evalAnd, evalOr, evalXor, h1, h2.1, h2.2.1, h2.2.2]
+      exact ⟨trivial, trivial, trivial⟩
+end
+end
+
+/-! ## the code as it is vs. the repaired code -/
+
+/-- the per-section trigger of `spliceIgnoresRename` -/
+def secTriggers (q : Quirks) (n : Nat) (resyn : Section → Except String SecResult) (s : Section) : Bool :=
+  match resyn s with
+  | .ok r => accept q n s r && !nameStable n r.qmap
+  | .error _ => false
+
+theorem triggers_eq (q : Quirks) (n : Nat) (resyn : Section → Except String SecResult)
+    (secs : List Section) :
+    triggers q n resyn secs = (q.spliceIgnoresRename && secs.any (secTriggers q n resyn)) := rfl
+
+theorem accept_congr {q : Quirks} {n : Nat} {s : Section} {r : SecResult}
+    (h : (q.spliceIgnoresRename && (accept q n s r && !nameStable n r.qmap)) = false) :
+    accept q n s r = accept Quirks.none n s r := by
+  unfold accept at *
+  simp only [Quirks.none]
+  generalize q.spliceIgnoresRename = f at *
+  generalize nameStable n r.qmap = st at *
+  generalize (decide (r.gates.length ≤ s.gates.length) &&
+    (wiresOf r.gates).all (fun i => (wiresOf s.gates).contains i)) = A at *
+  cases f <;> cases st <;> cases A <;> simp_all
+
+theorem spliceLoop_congr (q : Quirks) (n : Nat) (resyn : Section → Except String SecResult) :
+    ∀ (l : List Section) (acc : List AGate),
+      (∀ s ∈ l, (q.spliceIgnoresRename && secTriggers q n resyn s) = false) →
+      spliceLoop q n resyn l acc = spliceLoop Quirks.none n resyn l acc := by
+  intro l
+  induction l with
+  | nil => intro acc _; rfl
+  | cons s rest ih =>
+    intro acc h
+    have hs := h s (List.mem_cons_self)
+    have hrest : ∀ s' ∈ rest, (q.spliceIgnoresRename && secTriggers q n resyn s') = false :=
+      fun s' hs' => h s' (List.mem_cons_of_mem _ hs')
+    simp only [spliceLoop]
+    cases hr : resyn s with
+    | error e => rfl
+    | ok r =>
+      simp only
+      have : accept q n s r = accept Quirks.none n s r := by
+        apply accept_congr
+        simpa [secTriggers, hr] using hs
+      rw [this, ih _ hrest, ih _ hrest]
 
 end QV.Decopt
